@@ -153,6 +153,19 @@ def box_model(ctx):
     ctx.ob('BOX-MODEL', loc, 'reading the model back gives the written vectors and origin (unit undone)', bool(ok), node=fn, key='read values')
     ctx.ob('BOX-MODEL', loc, 'reading into a box that was used before resets its reciprocal-vector cache (the vectors go through the cell setter)', old.attrs.get('_Box__reciprocal_vects') is None,
            'cache after reading: %r' % (old.attrs.get('_Box__reciprocal_vects'),), node=fn, key='read cache')
+    # the setter's round-off clean-up must not depend on the working units active when the model is read
+    from . import c01
+    setter = ctx.fn(BOX, 'Box.vects', setter=True)
+    cl = [s_ for s_ in setter.body if c01._is_cleanup(s_)]
+    for s_ in cl:
+        tgt = s_.targets[0]
+        test = None
+        for x in ast.walk(tgt.slice):
+            if isinstance(x, ast.Call) and norm(x.func).endswith('isclose') and x.args:
+                test = x.args[0]
+        deg = c01._degree(test) if test is not None else None
+        ctx.ob('BOX-MODEL', BOX + '::Box.vects.setter', 'the near-zero clean-up applied when a cell is read tests a quantity that is relative to the largest component, so a cell survives being read under other working units (e.g. metres)',
+               deg == 0, 'tested quantity %s is not scale-free' % (norm(test) if test is not None else '?'), node=s_, key='cleanup scale-free')
 
 
 class AtomsM(PyStub):
